@@ -52,6 +52,14 @@ func runC08(c *sim.Ctx) *sim.Violation {
 			}
 		}
 	}
+	if frame == nil && t.Bool(1, 14) {
+		// the reserved type 0 (decoded as Undefined) with a body: a proper prefix of
+		// it is a proper prefix of a frame like any other
+		raw := t.Bytes(1 + t.Int(40))
+		frame, _ = ref.Frame(byte(t.Int(16)), raw, nil)
+		fm = nil
+		c.Count("frames.type-0-with-a-body")
+	}
 	if frame == nil {
 		a := gen.Packet(t, cfg)
 		frame, fm = ref.Encode(a)
